@@ -158,7 +158,19 @@ NEEDS.update({
  "m16": "input: peer with namespaceSelector AND a podSelector that uses matchExpressions; a pod matching the matchLabels part only",
  "m20": "input: a range string with a second '~' (a~b~c, a~b~, a~b~garbage)",
 })
-OTHER = {'m06': ['C09'], 'm02': ['C03'], 'l17': ['C14'], 'l08': ['C09'], 'l10': ['C04'], 'l01': ['C04'], 'k20': ['C09'], 'k02': ['C07'], 'k05': ['C09'], 'j08': ['C05'], 'j01': ['C04'], 'b02': ['C03', 'C05'], 'a04': ['C10'], 'd02': ['C06'], 'd09': ['C05', 'C06'], 'e06': ['C08', 'C05'], 'e01': ['C09', 'C05'], 'e10': ['C04'], 'e04': ['C01'], 'f13': ['C12'], 'd01': ['C04'], 'i02': ['C05'], 'i06': ['C09', 'C05'], 'i04': ['C01'], 'g02b': ['C06'], 'g10': ['C04'], 'g19': ['C06'], 'f16a': ['C15'], 'f15b': ['C16']}
+NEEDS.update({
+ "n01": "interleaving: the release API has been told by the API server that no such pod exists (pod lock not taken yet); the next incarnation is created and bound; the release goes on",
+ "n03": "interleaving: resync snapshots its checklist, the old incarnation is unbound and the same-named replacement bound with the same IP, then resync uses the SNAPSHOT's uid/node",
+ "n04": "state after a leader change: the pod cache (served from a lagging watch cache) shows the previous incarnation while the store records the new one; resync or an API release decide",
+ "n07": "input: a Pool object of size 0 (created so, or resized to 0 while deployments sharing it have pending pods)",
+ "n08": "state: the pod already holds IPs in >=2 requested ranges whose pools have different node subnets (re-bind after a failed binding); filter",
+ "n09": "interleaving: the administrator's release has deleted the object and not yet updated the cache when a reload without that IP rebuilds the tables",
+ "n10": "fault + retry on another node: AssignIP fails cleanly, the scheduler retries the pod on a different node of the same subnet, later unassign goes to the wrong node",
+ "n17": "input: dead container whose port file is truncated, so the clean callback fails every round (same idea as j17)",
+ "n18": "input: GET /v1/ip with a page so large that page*size wraps to a negative number",
+ "n19": "interleaving: a second policy sync reuses the backing array readers are still walking after they released the lock",
+})
+OTHER = {'n03': ['C04'], 'n01': ['C04'], 'n08': ['C06'], 'm06': ['C09'], 'm02': ['C03'], 'l17': ['C14'], 'l08': ['C09'], 'l10': ['C04'], 'l01': ['C04'], 'k20': ['C09'], 'k02': ['C07'], 'k05': ['C09'], 'j08': ['C05'], 'j01': ['C04'], 'b02': ['C03', 'C05'], 'a04': ['C10'], 'd02': ['C06'], 'd09': ['C05', 'C06'], 'e06': ['C08', 'C05'], 'e01': ['C09', 'C05'], 'e10': ['C04'], 'e04': ['C01'], 'f13': ['C12'], 'd01': ['C04'], 'i02': ['C05'], 'i06': ['C09', 'C05'], 'i04': ['C01'], 'g02b': ['C06'], 'g10': ['C04'], 'g19': ['C06'], 'f16a': ['C15'], 'f15b': ['C16']}
 only = sys.argv[1:]
 for sid, (prop, pkg) in SEEDS.items():
     if only and sid not in only: continue
